@@ -48,6 +48,10 @@ def gen_history(rng, long=False):
     for i in range(rng.randint(5, 30 if long else 12)):
         nd = rng.choice([0, 1, 2, 3, 6, 12, 12, 40, 64])
         targets = [f"n:{rng.choice('abcdefgh')}" for _ in range(nd)] if nd <= 12 else [f"n:t{j:02d}" for j in rng.sample(range(80), nd)]
+        if nd and rng.random() < 0.3:
+            # ids that are prefixes of one another: the canonical '<kind>:<id>:<attr>' string order differs from the order of
+            # the (kind, id, attr) tuples
+            targets = [rng.choice(["n:1", "n:10", "n:1.", "n:1/x", "n:1 ", "n:100", "n:1+"]) for _ in range(nd)]
         deltas = [["node" if rng.random() < 0.7 else "edge", t, "weight", rng.choice([0.1, -0.2, 0.3, 0.05, 1.0, -1.0, 0.0]), rng.choice([0, 1, None])] for t in targets]
         fault = rng.choice(["none", "none", "batch", "batch+some-singles", "all", "second-call"])
         exc = rng.choice(list(EXC))
@@ -207,7 +211,7 @@ def check_history(case, sess: Session):
                 else:
                     if calls[0]["gid"] != "g:surface" or calls[0]["ids"] != ids:
                         sess.violation("batch-call-not-exactly-the-approved-deltas-in-order", tcase, {"n_call": calls[0]["n"], "n_approved": len(appr), "keys": calls[0]["keys"][:4]})
-                    keys = [(d.target_kind, d.target_id, d.attr) for d in appr]
+                    keys = [f"{d.target_kind}:{d.target_id}:{d.attr}" for d in appr]  # the documented canonical key is this string
                     if keys != sorted(keys):
                         sess.violation("approved-not-in-canonical-order", tcase, keys[:6])
                     if calls[0]["ok"]:
